@@ -79,6 +79,8 @@ func c05Scenarios() []scenario {
 	// an Esc key press directly before a report, behind other keys of the same read ('?' = a
 	// key that is no rune: the Esc): in input order
 	add(c05p{kind: "slow", chunks: []string{"ab\x1b\x1b[I", "c"}, expect: "ab?Fc", modes: true})
+	// an empty paste (both brackets in one read) is a paste: its two events arrive
+	add(c05p{kind: "slow", chunks: []string{"a\x1b[200~\x1b[201~", "b\x1b[201~\x1b[200~\x1b[201~c"}, expect: "aPpbpPpc", modes: true})
 	add(c05p{kind: "free", chunks: []string{"ab\x1b\x1b[<0;2;1M", "c"}, expect: "ab?Mc", modes: true})
 	for _, pre := range []int{8, 9, 10} {
 		add(c05p{kind: "fullposts", k: 1, posters: 2, posts: 2, prefill: pre})
